@@ -87,6 +87,7 @@ package parser
 //@ func parser.expression
 //@   tags C10 C04 C09 C01 C17
 //@   linear
+//@   at new:PipeNode#1 assert[C18 C01 C17] pipe.node: p.curr.Type == tokT(ppos)
 //@   assigns p.curr, p.next, p.lex, fam:G_pos, fam:G_toks
 //@   requires pi: p.curr.Type == tokT(ppos) && p.next.Type == tokT(ppos + 1) && tokOK(p.curr.Type, p.curr.Value) && tokOK(p.next.Type, p.next.Value) && 0 <= p.lex.position && p.lex.position <= len(p.lex.expression) && aligned(p.lex.expression) && boundAt(p.lex.expression, p.lex.position)
 //@   ensures pi: result1 == nil ==> p.curr.Type == tokT(ppos) && p.next.Type == tokT(ppos + 1) && tokOK(p.curr.Type, p.curr.Value) && tokOK(p.next.Type, p.next.Value) && 0 <= p.lex.position && p.lex.position <= len(p.lex.expression) && aligned(p.lex.expression) && boundAt(p.lex.expression, p.lex.position)
@@ -210,7 +211,7 @@ package parser
 //@   ensures[C12 C01 C04] stop.absent.SliceStepCurrentNode: result2 == nil && isType(result0, "*github.com/woodsbury/jmespath/internal/parser.SliceStepCurrentNode") && tokT(old(ppos) + ite(old(p.curr.Type) == const("lexer.ColonToken"), 1, 2)) != const("lexer.IntegerLiteralToken") ==> as(result0, "parser.SliceStepCurrentNode").Stop == ite(as(result0, "parser.SliceStepCurrentNode").Step < 0, 0 - 9223372036854775808, 9223372036854775807)
 //@   ensures[C12 C01 C04] index.value.IndexNode: result2 == nil && isType(result0, "*github.com/woodsbury/jmespath/internal/parser.IndexNode") ==> as(result0, "parser.IndexNode").Value == atoiVal(old(p.curr.Value)) && old(p.curr.Type) == const("lexer.IntegerLiteralToken")
 //@   ensures[C12 C01 C04] index.value.IndexCurrentNode: result2 == nil && isType(result0, "*github.com/woodsbury/jmespath/internal/parser.IndexCurrentNode") ==> as(result0, "parser.IndexCurrentNode").Value == atoiVal(old(p.curr.Value)) && old(p.curr.Type) == const("lexer.IntegerLiteralToken")
-//@   ensures[C12 C01 C04] projects: result2 == nil ==> result1 == (isType(result0, "*github.com/woodsbury/jmespath/internal/parser.SliceNode") || isType(result0, "*github.com/woodsbury/jmespath/internal/parser.SliceCurrentNode") || isType(result0, "*github.com/woodsbury/jmespath/internal/parser.SliceStepNode") || isType(result0, "*github.com/woodsbury/jmespath/internal/parser.SliceStepCurrentNode"))
+//@   ensures[C12 C01 C04 C17] projects: result2 == nil ==> result1 == (isType(result0, "*github.com/woodsbury/jmespath/internal/parser.SliceNode") || isType(result0, "*github.com/woodsbury/jmespath/internal/parser.SliceCurrentNode") || isType(result0, "*github.com/woodsbury/jmespath/internal/parser.SliceStepNode") || isType(result0, "*github.com/woodsbury/jmespath/internal/parser.SliceStepCurrentNode"))
 
 //@ func parser.selectArray
 //@   tags C04 C09
